@@ -548,6 +548,7 @@ fn exec_child(exe: &Path, case: &Path, log: bool) -> ChildEnd {
 /// Target of a minimisation / replay: what "the same failure" means.
 #[derive(Clone, Debug)]
 enum Target {
+    Miri { force_none: bool, max_ops: usize },
     Key(String),
     Death { std_precondition: bool },
     Hang,
@@ -564,6 +565,20 @@ fn fails_like(prop: &str, cfg: &Config, ops: &[Op], target: &Target, tag: &str, 
     let case = tmp_dir().join(format!("case-{}-{}.json", std::process::id(), tag));
     write_case(&case, prop, cfg, ops, json!({}));
     let res = match target {
+        Target::Miri { .. } => {
+            let o = miri_cmd().arg("exec").arg(&case).output();
+            match o {
+                Ok(o) => {
+                    let err = String::from_utf8_lossy(&o.stderr).to_string();
+                    if err.contains("Undefined Behavior") || err.contains("error: unsupported operation") {
+                        Some((Vec::new(), json!({"oracle": "C19.miri", "key": "C19.miri", "observed": tail(&err, 1200), "expected": "no undefined behaviour reported by Miri"})))
+                    } else {
+                        None
+                    }
+                }
+                Err(_) => None,
+            }
+        }
         Target::CrossBuild => {
             let a = exec_child(&exe_for("checked"), &case, true);
             let b = exec_child(&exe_for("ship"), &case, true);
@@ -632,6 +647,7 @@ pub fn cmd_replay(args: &Args) -> i32 {
         "abort" => Target::Death { std_precondition: v.get("std_precondition").and_then(|x| x.as_bool()).unwrap_or(false) },
         "hang" => Target::Hang,
         "cross_build" => Target::CrossBuild,
+        "miri" => Target::Miri { force_none: false, max_ops: 0 },
         _ => Target::Key(v.get("key").and_then(|x| x.as_str()).unwrap_or("").to_string()),
     };
     let fl = v.get("flavours").and_then(|x| x.as_array()).and_then(|a| a.get(0)).and_then(|x| x.as_str()).unwrap_or("checked").to_string();
@@ -848,6 +864,16 @@ pub fn cmd_check(args: &Args) -> i32 {
         total.merge_json(&b.agg.to_json());
     }
 
+    let mut miri_json = json!({"ran": false, "note": "Miri runs in the thorough tier of C19 only"});
+    if prop == "C19" && tier == "thorough" {
+        let rep = miri_sweep(seed, jobs.min(16));
+        println!("  miri: available {} runs {} wall {:.0} s failures {} {}", rep.available, rep.runs, rep.wall, rep.failures.len(), rep.note);
+        miri_json = json!({"ran": rep.available, "micro_runs": rep.runs, "wall_s": rep.wall, "failures": rep.failures.len(), "note": rep.note,
+            "what": "scratch micro-runs (<= 30 ops) and language-none hist micro-runs (<= 25 ops) interpreted by Miri; stemming languages excluded (building one costs about a minute under Miri)"});
+        for (scenario, run, none, msg) in rep.failures {
+            failures.push(Failure { flavour: "miri", scenario: scenario.clone(), run, target: Target::Miri { force_none: none, max_ops: if scenario == "hist" { 25 } else { 30 } }, key: "C19.miri".into(), detail: json!({"oracle": "C19.miri", "observed": msg, "expected": "no undefined behaviour reported by Miri"}) });
+        }
+    }
     if recheck_mismatch > 0 {
         eprintln!("lsim: {} of {} re-executed runs gave a different history digest: the harness is not deterministic; nothing is reported", recheck_mismatch, recheck_runs);
         return 2;
@@ -876,7 +902,10 @@ pub fn cmd_check(args: &Args) -> i32 {
         // the shortest failing run of this key is the best starting point
         let mut best: Option<(&Failure, Config, Vec<Op>)> = None;
         for f in fs.iter().take(12) {
-            let (cfg, ops) = gen::generate(&prop, &f.scenario, seed, f.run);
+            let (cfg, ops) = match f.target {
+                Target::Miri { force_none, max_ops } => miri_case(&prop, &f.scenario, seed, f.run, max_ops, force_none),
+                _ => gen::generate(&prop, &f.scenario, seed, f.run),
+            };
             if best.as_ref().map(|(_, _, o)| ops.len() < o.len()).unwrap_or(true) {
                 best = Some((f, cfg, ops));
             }
@@ -899,7 +928,8 @@ pub fn cmd_check(args: &Args) -> i32 {
                     counter += 1;
                     fails_like(&p, c, o, &target, &format!("min{}", counter), fl).map(|(s, _)| s)
                 };
-                let budget = if matches!(f.target, Target::Hang) { 20 } else { 3000 };
+                // a Miri candidate costs the better part of a minute: only the truncation step is tried
+                let budget = if matches!(f.target, Target::Hang) { 20 } else if matches!(f.target, Target::Miri { .. }) { 1 } else { 3000 };
                 let (c2, o2, tried) = minimise::minimise(&cfg, &ops, at_op, budget, &mut test);
                 let d2 = fails_like(&prop, &c2, &o2, &f.target, "final", f.flavour).map(|(_, d)| d).unwrap_or(d);
                 (c2, o2, d2, tried)
@@ -911,6 +941,7 @@ pub fn cmd_check(args: &Args) -> i32 {
             Target::Death { .. } => "abort",
             Target::Hang => "hang",
             Target::CrossBuild => "cross_build",
+            Target::Miri { .. } => "miri",
         };
         let mut extra = json!({
             "seed": seed, "run": f.run, "flavours": if kind == "cross_build" { json!(["checked", "ship"]) } else { json!([f.flavour]) },
@@ -942,7 +973,7 @@ pub fn cmd_check(args: &Args) -> i32 {
 
     // ---- evidence
     let wall = t0.elapsed().as_secs_f64();
-    let evidence = build_evidence(&prop, &tier, seed, &total, &per_scenario, wall, failures.len(), &reported, &known_lines, recheck_runs, truncated, cross_runs);
+    let evidence = build_evidence(&prop, &tier, seed, &total, &per_scenario, wall, failures.len(), &reported, &known_lines, recheck_runs, truncated, cross_runs, &miri_json);
     let evdir = verif_dir().join("evidence");
     let _ = std::fs::create_dir_all(&evdir);
     let evpath = evdir.join(format!("{}.json", prop));
@@ -1009,7 +1040,7 @@ fn assumptions_for(prop: &str) -> Vec<&'static str> {
 }
 
 #[allow(clippy::too_many_arguments)]
-fn build_evidence(prop: &str, tier: &str, seed: u64, a: &Agg, per_scenario: &[Value], wall: f64, failures: usize, reported: &[Value], known: &[String], recheck_runs: u64, truncated: bool, cross_runs: u64) -> Value {
+fn build_evidence(prop: &str, tier: &str, seed: u64, a: &Agg, per_scenario: &[Value], wall: f64, failures: usize, reported: &[Value], known: &[String], recheck_runs: u64, truncated: bool, cross_runs: u64, miri: &Value) -> Value {
     let mut faults = serde_json::Map::new();
     let mut fault_runs = serde_json::Map::new();
     for (i, k) in FAULT_KINDS.iter().enumerate() {
@@ -1077,6 +1108,7 @@ fn build_evidence(prop: &str, tier: &str, seed: u64, a: &Agg, per_scenario: &[Va
             "aborted_by_panic": a.aborted_by_panic,
             "determinism_recheck": {"runs": recheck_runs, "mismatches": 0},
             "cross_build_runs_compared": cross_runs,
+            "miri": miri,
             "violations_reported": reported,
             "known_findings_matched": known,
             "components": {
@@ -1088,6 +1120,120 @@ fn build_evidence(prop: &str, tier: &str, seed: u64, a: &Agg, per_scenario: &[Va
         },
         "assumptions": assumptions_for(prop),
     })
+}
+
+// =================================================================================================
+// in-process batch (no child processes): this is what runs under Miri
+
+/// The op list of a Miri micro-run: the generated run, cut to `max_ops`, optionally with every
+/// language replaced by "none" (building a stemming Lang costs about a minute under Miri).
+fn miri_case(prop: &str, scenario: &str, seed: u64, run: u64, max_ops: usize, force_none: bool) -> (Config, Vec<Op>) {
+    let (cfg, mut ops) = gen::generate(prop, scenario, seed, run);
+    ops.truncate(max_ops);
+    if force_none {
+        for o in ops.iter_mut() {
+            match o {
+                Op::Create { lang, .. } | Op::Pollute { lang, .. } | Op::RCreate { lang, .. } => *lang = "none".to_string(),
+                _ => {}
+            }
+        }
+    }
+    (cfg, ops)
+}
+
+struct MiriReport {
+    available: bool,
+    runs: u64,
+    wall: f64,
+    failures: Vec<(String, u64, bool, String)>, // scenario, run, force_none, message
+    note: String,
+}
+
+fn miri_cmd() -> Command {
+    let mut c = Command::new("cargo");
+    c.current_dir(verif_dir().join("sim"))
+        .env("CARGO_TARGET_DIR", verif_dir().join("target").join("miri"))
+        .env("CARGO_NET_OFFLINE", "true")
+        .env("MIRIFLAGS", "-Zmiri-disable-isolation")
+        .args(["+nightly", "miri", "run", "--offline", "--quiet", "--features", "hooks", "--"]);
+    c
+}
+
+/// Thorough tier of C19: a few micro-runs interpreted by Miri (catches what the index
+/// assertions cannot: use of uninitialised or freed memory, invalid references).
+fn miri_sweep(seed: u64, procs: usize) -> MiriReport {
+    let t0 = Instant::now();
+    let mut rep = MiriReport { available: false, runs: 0, wall: 0.0, failures: Vec::new(), note: String::new() };
+    // warm-up: builds the interpreter sysroot and the crate once (also tells us whether Miri works here)
+    let warm = miri_cmd().args(["miri-batch", "--count", "0"]).output();
+    match warm {
+        Ok(o) if o.status.success() => rep.available = true,
+        Ok(o) => {
+            rep.note = format!("Miri is not usable in this sandbox: {}", tail(&String::from_utf8_lossy(&o.stderr), 400));
+            return rep;
+        }
+        Err(e) => {
+            rep.note = format!("Miri is not usable in this sandbox: {}", e);
+            return rep;
+        }
+    }
+    let mut children = Vec::new();
+    for i in 0..procs {
+        // two thirds scratch micro-runs, one third language-"none" hist micro-runs
+        let (scenario, start, count, max_ops, none) = if i % 3 == 2 {
+            ("hist", 100_001 + 2 * i as u64, 2u64, 25usize, true)
+        } else {
+            ("scratch", gen::SYSTEMATIC_SCRATCH + 1000 + 3 * i as u64, 3u64, 30usize, false)
+        };
+        let mut c = miri_cmd();
+        c.args(["miri-batch", "--prop", "C19", "--scenario", scenario, "--seed", &seed.to_string(), "--start", &start.to_string(), "--count", &count.to_string(), "--max-ops", &max_ops.to_string()]);
+        if none {
+            c.arg("--force-lang-none");
+        }
+        if let Ok(ch) = c.stdout(Stdio::piped()).stderr(Stdio::piped()).stdin(Stdio::null()).spawn() {
+            children.push((scenario, start, count, none, ch));
+        }
+    }
+    for (scenario, start, count, none, ch) in children {
+        if let Ok(o) = ch.wait_with_output() {
+            let out = String::from_utf8_lossy(&o.stdout).to_string();
+            let err = String::from_utf8_lossy(&o.stderr).to_string();
+            let done: Vec<u64> = out.lines().filter(|l| l.starts_with("MIRI-RUN ")).filter_map(|l| l.split(' ').nth(1).and_then(|x| x.parse().ok())).collect();
+            rep.runs += done.len() as u64;
+            let ub = err.contains("Undefined Behavior") || err.contains("error: unsupported operation") || out.lines().any(|l| l.starts_with("V "));
+            if ub || !o.status.success() {
+                // the run that was being interpreted when Miri stopped
+                let failing = (start..start + count).find(|r| !done.contains(r)).unwrap_or(start);
+                rep.failures.push((scenario.to_string(), failing, none, tail(&err, 1200)));
+            }
+        }
+    }
+    rep.wall = t0.elapsed().as_secs_f64();
+    rep
+}
+
+pub fn cmd_miri_batch(args: &Args) -> i32 {
+    let prop = args.get("prop").unwrap_or("C19").to_string();
+    let scenario = args.get("scenario").unwrap_or("scratch").to_string();
+    let seed = args.num("seed").unwrap_or(DEFAULT_SEED);
+    let start = args.num("start").unwrap_or(0);
+    let count = args.num("count").unwrap_or(1);
+    let max_ops = args.num("max-ops").unwrap_or(40) as usize;
+    let mut bad = 0;
+    for r in start..start + count {
+        let (cfg, ops) = miri_case(&prop, &scenario, seed, r, max_ops, args.flag("force-lang-none"));
+        let out = exec::execute(&prop, &cfg, &ops, false);
+        println!("MIRI-RUN {} ops {} executed {} digest {:016x} panic {}", r, ops.len(), out.executed, out.digest, out.stopped_by_panic.as_ref().map(|p| p.render()).unwrap_or_default());
+        if let Some(v) = &out.violation {
+            println!("V {} {}", r, violation_json(v));
+            bad += 1;
+        }
+    }
+    if bad > 0 {
+        1
+    } else {
+        0
+    }
 }
 
 // =================================================================================================
